@@ -187,8 +187,8 @@ def run_schedule(name, threads, plan, expected, stats, label):
     # lazily initialised state that a sequential run sets too (rebinding) is not a loss
     lost = []
     for k in before:
-        names_b = set(n for n, _ in before[k])
-        names_a = set(n for n, _ in after.get(k, ())) if k in after else names_b
+        names_b = set(x[0] for x in before[k])
+        names_a = set(x[0] for x in after.get(k, ())) if k in after else names_b
         if names_b - names_a:
             lost.append('%s lost %s' % (k, sorted(names_b - names_a)))
     if lost:
